@@ -23,7 +23,7 @@ BATCH = 5000
 
 
 def gen(rng, tier):
-    n = 500 if tier == 'quick' else 15000
+    n = G.budget(500) if tier == 'quick' else 15000
     for _ in range(n):
         labs, akind = G.alphabet(rng)
         lag = rng.choice([1, 1, 2, 2, 3, 4, 5, 7, 12])
